@@ -262,7 +262,7 @@ pub fn op_cksum(run: &mut Run, cfg: &WCfg, sp: u16, dp: u16, plen: u16) -> Optio
     }
 }
 
-pub const ACCESSORS: [(&str, usize); 7] = [
+pub const ACCESSORS: [(&str, usize); 15] = [
     ("ipv4Payload", 20),
     ("ipv4OptionsRaw", 20),
     ("ipv6Payload", 40),
@@ -270,11 +270,31 @@ pub const ACCESSORS: [(&str, usize); 7] = [
     ("tcpPayload", 20),
     ("tcpOptionsRaw", 20),
     ("echoPayload", 8),
+    ("ipv4OptionsRawMut", 20),
+    ("echoReply4Payload", 8),
+    ("echoRequest6Payload", 8),
+    ("echoReply6Payload", 8),
+    ("te4PayloadRaw", 8),
+    ("du4PayloadRaw", 8),
+    ("te6PayloadRaw", 8),
+    ("du6PayloadRaw", 8),
 ];
 
 fn call_slice(acc: &str, b: &[u8]) -> Option<Vec<u8>> {
-    use trippy_packet::{icmpv4, ipv4::Ipv4Packet, ipv6::Ipv6Packet, tcp::TcpPacket, udp::UdpPacket};
+    use trippy_packet::{icmpv4, icmpv6, ipv4::Ipv4Packet, ipv6::Ipv6Packet, tcp::TcpPacket, udp::UdpPacket};
     Some(match acc {
+        "ipv4OptionsRawMut" => {
+            let mut m = b.to_vec();
+            let mut v = Ipv4Packet::new(&mut m).ok()?;
+            v.get_options_raw_mut().to_vec()
+        }
+        "echoReply4Payload" => icmpv4::echo_reply::EchoReplyPacket::new_view(b).ok()?.payload().to_vec(),
+        "echoRequest6Payload" => icmpv6::echo_request::EchoRequestPacket::new_view(b).ok()?.payload().to_vec(),
+        "echoReply6Payload" => icmpv6::echo_reply::EchoReplyPacket::new_view(b).ok()?.payload().to_vec(),
+        "te4PayloadRaw" => icmpv4::time_exceeded::TimeExceededPacket::new_view(b).ok()?.payload_raw().to_vec(),
+        "du4PayloadRaw" => icmpv4::destination_unreachable::DestinationUnreachablePacket::new_view(b).ok()?.payload_raw().to_vec(),
+        "te6PayloadRaw" => icmpv6::time_exceeded::TimeExceededPacket::new_view(b).ok()?.payload_raw().to_vec(),
+        "du6PayloadRaw" => icmpv6::destination_unreachable::DestinationUnreachablePacket::new_view(b).ok()?.payload_raw().to_vec(),
         "ipv4Payload" => Ipv4Packet::new_view(b).ok()?.payload().to_vec(),
         "ipv4OptionsRaw" => Ipv4Packet::new_view(b).ok()?.get_options_raw().to_vec(),
         "ipv6Payload" => Ipv6Packet::new_view(b).ok()?.payload().to_vec(),
@@ -452,5 +472,6 @@ pub fn run(rng: &mut Rng, thorough: bool, corpus: &[String]) -> Run {
     crate::wire_gen::gen_recv(&mut run, rng, thorough);
     crate::wire_gen::gen_slice(&mut run, rng, thorough);
     crate::wire_gen::gen_e2e(&mut run, rng, thorough);
+    crate::wire_gen::gen_set_payload(&mut run, rng, thorough);
     run
 }
